@@ -7,6 +7,7 @@ import (
 
 	"github.com/mimecast/dtail/internal/config"
 	"github.com/mimecast/dtail/internal/lcontext"
+	"github.com/mimecast/dtail/internal/source"
 	"github.com/mimecast/dtail/verif/explore"
 	"github.com/mimecast/dtail/verif/vrt"
 )
@@ -193,6 +194,70 @@ func c02Sig(msg string, v *explore.Violation) string {
 	return "other"
 }
 
+// c02Segmented: the session's commands reach the server handler the way an
+// SSH channel delivers them: as arbitrary segments of the byte stream, handed
+// over in ONE re-used transport buffer (io.Copy's).  Every file of the session
+// must still be delivered completely.  Canonical schedule.
+func c02Segmented(c *Ctx) {
+	files := []int{2, 1, 3, 2}
+	p := c02Params{Kind: "cat", Files: files, CatLimit: 2}
+	paths, _ := c02Setup(p)
+	var stream []byte
+	for _, f := range paths {
+		stream = append(stream, WireCommand("cat:quiet=true "+f+" regex:noop ")...)
+	}
+	for _, seg := range []int{1, 2, 3, 7, 16, 50, 64, 100, 150, 1000, 32768} {
+		for _, bufSize := range []int{seg, 32768} {
+			var viol string
+			res := vrt.Run(vrt.Config{MaxSteps: 5000000, Horizon: 10 * time.Minute}, func() {
+				args := DefaultArgs()
+				args.Logger = "none"
+				args.LogLevel = "error"
+				StartEnv(source.Server, &args, func() { config.Server.MaxConcurrentCats = 2 })
+				cat := vrt.Make[struct{}]("catLimiter", 2)
+				tail := vrt.Make[struct{}]("tailLimiter", 2)
+				s := NewServerSession("s", "verifuser", cat, tail)
+				vrt.Go("pump", func() { s.Pump(32 * 1024) })
+				tbuf := make([]byte, bufSize)
+				rest := stream
+				for len(rest) > 0 {
+					n := seg
+					if n > len(rest) {
+						n = len(rest)
+					}
+					if n > len(tbuf) {
+						n = len(tbuf)
+					}
+					copy(tbuf, rest[:n])
+					s.H.Write(tbuf[:n])
+					rest = rest[n:]
+				}
+				s.Done.Recv("wait")
+				got := map[string]int{}
+				for _, m := range s.Lines() {
+					if f := strings.SplitN(m, "|", 6); len(f) == 6 {
+						got[strings.TrimSpace(f[5])]++
+					}
+				}
+				for f, n := range files {
+					for _, l := range c02FileLines(f, n) {
+						if got[l] != 1 {
+							viol = fmt.Sprintf("commands delivered in segments of %d bytes through a re-used %d-byte transport buffer: line %q of file %d delivered %d times, want 1", seg, bufSize, l, f, got[l])
+						}
+					}
+				}
+			})
+			c.Count(fmt.Sprintf("segmented|%d|%d", seg, bufSize))
+			if res.Fail != nil {
+				viol = res.Fail.Error()
+			}
+			if viol != "" {
+				c.Violation("lines-lost-with-segmented-command-stream", viol, map[string]int{"segment": seg, "buffer": bufSize})
+			}
+		}
+	}
+}
+
 func c02ParamSets(tier string) (ps []c02Params, d int) {
 	if tier == "quick" {
 		return []c02Params{
@@ -234,7 +299,7 @@ func init() {
 		Rule: "stateless exploration of all schedules within a deviation bound (quick 1, thorough 2; deviations = preemption, non-first ready select case, demotion of a goroutine) of one complete dcat/dgrep session: " +
 			"the real client main body, serverless connector, server handler, read commands, readers and client handler; sessions of 1-3 files with 0-2 lines (plus 100/101 lines around the queue capacity), one command per file or one glob, " +
 			"cat limit 1-2, grep with max/after, consumer eager or stalled 50 ms..6 s before the k-th write; oracle: per file exactly its selected lines once and in order, exit status 0, termination before the horizon; " +
-			"distinct = distinct (scenario, stdout+status) outcomes",
+			"plus a 4-file session whose command stream is delivered in segments of 1..32768 bytes through a re-used transport buffer (as an SSH channel does); distinct = distinct (scenario, stdout+status) outcomes",
 		Assumptions: []string{
 			"code between two synchronisation operations is atomic (data-race freedom; checked by the free-running -race pass)",
 			"virtual time advances only when no goroutine is runnable; slowness is modelled by explicit consumer stalls and by demotion",
@@ -248,6 +313,9 @@ func init() {
 			return
 		},
 		Run: func(c *Ctx) {
+			if c.Shard == 0 {
+				c02Segmented(c)
+			}
 			ps, d := c02ParamSets(c.Tier)
 			for _, p := range ps {
 				if c.Expired() {
